@@ -229,7 +229,7 @@ def _double_or_required(F, rb, size):
     what repeated doubling would have reached"""
     from . import fmt
     e = size.strip()
-    if not (e.k == "call" and e.x["path"].endswith("cmp::max") and len(e.a) == 2):
+    if not (is_call(e, "cmp::max") and len(e.a) == 2):
         return False, ""
     dbl = [x for x in e.a if (lambda c_: bool(c_ and c_[0] == "Mul" and 2 in (const_val(c_[1]), const_val(c_[2])) and any(is_call(y, "::len") and is_self_field(y.strip().a[0], "buffer") for y in (c_[1], c_[2]))))(checked(x))]
     oth = [x for x in e.a if x not in dbl]
